@@ -382,6 +382,13 @@ def _(v):
 
 
 # ====================================================================================================== move_to_com
+def cut(L, name, eq):
+    """ghost assertion at a loop entry: prove eq here (its own obligation), then use it as a hypothesis.  Used to turn
+    'the previous loop ended with i == N_real' into syntactic equalities S(name, i_exit) == S(name, N_real) that the
+    ideal-membership back end can use."""
+    L.eng.check_then_assume(L.st, name, simp(eq), "lemma")
+
+
 def com_contract(v, S, old, Nr, C, M):
     """reb_simulation_com by contract (proved against the real bodies in frames.com.summary): returns a particle with
     m = M = SM(N_real) and x..vz = C[f]; facts: M == S_m(N_real), M > 0 -> C_f*M == S_{m*f}(N_real), else C_f == 0."""
@@ -523,6 +530,8 @@ def first_order_loops(v, parts, old, S, C, M, Nr, idx, comps):
             return Nr - L.i
         return variant
 
+    seen = {}
+
     def inv5(L):
         i = L.i
         return [("range", z3.And(0 <= i, i <= Nr)), ("dm", as_real(L.dm) == S("dm", i))]
@@ -530,8 +539,12 @@ def first_order_loops(v, parts, old, S, C, M, Nr, idx, comps):
 
     def inv6(L):
         i = L.i
+        seen["i6"] = i                  # the last evaluation before the exit path continues is the loop head: i at exit
         cs = L.com_shift
         dm = as_real(L.dm)
+        if "cut6" not in seen:
+            seen["cut6"] = True
+            cut(L, "frames.first_order.exit5.dm", dm == S("dm", Nr))
         out = [("range", z3.And(0 <= i, i <= Nr))]
         for f in comps:
             out.append(("acc." + f, field(L, cs, f) == (S("m*d" + f, i) + S(f + "*dm", i)) / M - S("m*" + f, i) * dm / (M * M)))
@@ -544,6 +557,12 @@ def first_order_loops(v, parts, old, S, C, M, Nr, idx, comps):
         cur = {f: arr(L, parts, f) for f in PV}
         sh = {f: field(L, cs, f) for f in PV}
         inset = z3.And(idx <= k, k < idx + i)
+        if "cut7" not in seen:
+            seen["cut7"] = True
+            for nm in names6:
+                cut(L, "frames.first_order.exit6." + nm, S(nm, seen["i6"]) == S(nm, Nr))
+            for f in comps:
+                cut(L, "frames.first_order.com_is_weighted_mean." + f, S("m*" + f, Nr) == C[f] * M)
         out = [("range", z3.And(0 <= i, i <= Nr))]
         for f in comps:
             out.append(("shift_is_dX." + f, sh[f] == dX_spec(S, C, M, Nr, f)))
@@ -694,13 +713,20 @@ def second_order_task(comp):
                     ("ddm", as_real(L.ddm) == S("ddm", i))]
         v.loop("reb_simulation_move_to_com", 1, invariant=inv1, variant=at_head(["dma", "dmb", "ddm"]))
 
+        seen = {}
+        names2 = ["m*" + f] + ["%s.%s" % p_ for p_ in pairs if p_ != ("m", "x")]
+
         def inv2(L):
             i = L.i
+            seen["i2"] = i
             tot = {"dma": as_real(L.dma), "dmb": as_real(L.dmb), "ddm": as_real(L.ddm)}
+            if "cut2" not in seen:
+                seen["cut2"] = True
+                for u in tot:
+                    cut(L, "frames.second_order.exit1." + u, tot[u] == S(u, Nr))
             return [("range", z3.And(0 <= i, i <= Nr)),
                     ("acc." + f, field(L, L.com_shift, f) == ddX_closed(dotS(i), lambda u: tot[u], M))]
-        v.loop("reb_simulation_move_to_com", 2, invariant=inv2,
-               variant=at_head(["m*" + f] + ["%s.%s" % p_ for p_ in pairs if p_ != ("m", "x")]))
+        v.loop("reb_simulation_move_to_com", 2, invariant=inv2, variant=at_head(names2))
         spec = ddX_closed(dotS(Nr), lambda u: S(u, Nr), M)
 
         def inv3(L):
@@ -708,6 +734,10 @@ def second_order_task(comp):
             cur = {g: arr(L, parts, g) for g in PV}
             sh = {g: field(L, L.com_shift, g) for g in PV}
             inset = z3.And(ic <= k, k < ic + i)
+            if "cut3" not in seen:
+                seen["cut3"] = True
+                for nm in names2:
+                    cut(L, "frames.second_order.exit2." + nm, S(nm, seen["i2"]) == S(nm, Nr))
             return [("range", z3.And(0 <= i, i <= Nr)), ("shift_is_ddX." + f, sh[f] == spec),
                     ("done", z3.ForAll([k], z3.Implies(inset, z3.And(*[z3.Select(cur[g], k) == z3.Select(old[g], k) - sh[g] for g in PV])))),
                     ("todo", z3.ForAll([k], z3.Implies(z3.Not(inset), z3.And(*[z3.Select(cur[g], k) == z3.Select(old[g], k) for g in PV])))),
